@@ -72,7 +72,7 @@ fn detour<D: Unweighted>(r: &mut Rng, m: &Model) -> (D, usize) {
 
 fn unweighted<D>(r: &mut Rng, m: &Model, o: &mut CaseOut, p_big: bool) -> bool
 where
-    D: Unweighted + From<AdjacencyList> + Complete + Circuit + Empty,
+    D: Unweighted + From<AdjacencyList> + Complete + Circuit + Empty + Complement + Converse + Union,
     AdjacencyList: From<D>,
 {
     let name = D::NAME;
@@ -88,6 +88,16 @@ where
     let mut rr = Rng(0);
     same(o, &D::complete(n), &D::build(&gen::family(&mut rr, 2, n)), &format!("{name}(complete vs add_arc)"));
     same(o, &D::circuit(n), &D::build(&gen::family(&mut rr, 4, n)), &format!("{name}(circuit vs add_arc)"));
+    // digraphs produced by operations are equal to the same digraphs built arc by arc
+    if r.below(4) == 0 {
+        same(o, &a.complement(), &D::build(&m.complement()), &format!("{name}(complement vs add_arc)"));
+        same(o, &a.converse(), &D::build(&m.converse()), &format!("{name}(converse vs add_arc)"));
+        same(o, &a.complement().complement(), &a, &format!("{name}(complement twice)"));
+        same(o, &a.converse().converse(), &a, &format!("{name}(converse twice)"));
+        same(o, &a.union(&b), &a, &format!("{name}(union with an equal digraph)"));
+        same(o, &D::empty(n).complement(), &D::complete(n), &format!("{name}(empty.complement vs complete)"));
+        same(o, &a.union(&a.complement()), &D::complete(n), &format!("{name}(D union complement(D) vs complete)"));
+    }
     // minimal differences
     if n >= 2 {
         let u = r.below(n);
